@@ -726,7 +726,16 @@ func (g *dgen) session(tier string, idx int) {
 			if k2 != k1 {
 				dep := [][]string{{"set", k2, g.val(), "nx"}, {"setnx", k2, g.val()}, {"incr", k2}, {"append", k2, "x"}, {"set", k2, g.val(), "xx"}, {"getset", k2, g.val()}}[g.rng.Intn(6)]
 				var pre, ev [][]string
-				switch g.rng.Intn(4) {
+				switch g.rng.Intn(6) {
+				case 4:
+					// a conditional write whose condition is NOT met (NX on an existing key) behind batched writes of OTHER keys of
+					// the same event: it answers nil and must leave the open batch alone (the writes before it were acknowledged)
+					pre = [][]string{{"set", k2, "2"}}
+					ev = [][]string{{"set", k1, g.val()}, {"hmset", k1 + "h", "f", "v"}, {"set", k2, "b", "nx"}, {"set", k1 + "x", "after"}}
+				case 5:
+					// the same with XX on a missing key
+					pre = [][]string{{"del", k2}}
+					ev = [][]string{{"set", k1, g.val()}, {"setex", k1 + "e", "1000", "v"}, {"set", k2, "b", "xx"}}
 				case 3:
 					// two state-dependent writes on the SAME key inside one event, behind a write to another key: the second
 					// must see the first (every key written in the open batch has to be recorded, not only the first one)
